@@ -244,6 +244,52 @@ def _lookup_sites(f, root_path, depth=4):
     return out, seen
 
 
+def _range_lower_bound(b, keyop, depth=0):
+    """if the operand is `x[..len]` / `x[a..len]` with `len` produced by iterating a counted range
+    `lo..hi` / `lo..=hi`, return the constant lo (else None)"""
+    for o in trace(b, keyop, through_calls=False):
+        if o.kind != "call":
+            continue
+        t = o.data
+        n = t["f"].get("name")
+        if n in ("as_ref", "deref", "borrow", "as_slice") and t["a"] and depth < 3:
+            r = _range_lower_bound(b, t["a"][0], depth + 1)
+            if r is not None:
+                return r
+        if n != "index" or len(t["a"]) < 2:
+            continue
+        # the range aggregate's end operand
+        for ro in trace(b, t["a"][1], through_calls=False):
+            if ro.kind != "agg" or ro.data[0][0] != "adt":
+                continue
+            ops = ro.data[1]
+            if not ops:
+                continue
+            end = ops[-1]
+            for eo in trace(b, end, through_calls=False):
+                # Some(len) payload of Iterator::next on a range iterator
+                cur = [eo]
+                for _ in range(6):
+                    nxt = []
+                    for x in cur:
+                        if x.kind == "call":
+                            nm = x.data["f"].get("name")
+                            if nm == "new" and callee_matches(x.data, r"ops::RangeInclusive"):
+                                a0 = x.data["a"][0]
+                                if a0[0] == "const" and a0[1].get("val") is not None:
+                                    return a0[1]["val"]
+                            if x.data["a"]:
+                                nxt += trace(b, x.data["a"][0], through_calls=False)
+                        elif x.kind == "agg" and x.data[0][0] == "adt" and x.data[0][1].endswith("ops::Range"):
+                            a0 = x.data[1][0]
+                            if a0[0] == "const" and a0[1].get("val") is not None:
+                                return a0[1]["val"]
+                    cur = nxt
+                    if not cur:
+                        break
+    return None
+
+
 def r2(ctx):
     f = ctx.facts
     root = SI + "prefixes_of"
@@ -293,6 +339,13 @@ def r2(ctx):
                         if b.edge_dominates(e[0], e[1], bi):
                             guarded = True
                             detail.append("lookup at %s is dominated by a len()>0 edge" % t["sp"])
+        # a lookup of a sub-slice key[..len] whose len is drawn from a counted range that starts
+        # above zero never sees the empty key either
+        if not guarded:
+            lo = _range_lower_bound(b, t["a"][3])
+            if lo is not None and lo >= 1:
+                guarded = True
+                detail.append("lookup at %s takes key[..len] with len drawn from a range starting at %d: the zero-length prefix is never looked up" % (t["sp"], lo))
         if not guarded:
             any_unguarded = True
     ctx.check(any_unguarded, "C02.R2b", sites[0][0].path, "empty-key-lookup",
